@@ -72,4 +72,60 @@ def traces():
         evs.append({"op": "add_slide", "layout": 1})
         evs.append({"op": "checkpoint", "sink": "seekable"})
         out.append(T("corpus-%s" % d, evs, start=[{"deck": d}]))
+    out.extend(pair_orders())
+    return out
+
+
+def pair_orders():
+    """Insertion order: for every ordered pair (A, B) of catalog properties of one object, B's setting is removed and made again
+    while A's is present, and again while A's is absent.  (Child elements are inserted relative to the siblings that happen to
+    exist at that moment: each call alone, and most orders, say nothing about the order that misplaces one.)"""
+    import random
+    from .. import c09
+    c09.build_catalog()
+    by_obj = {}
+    for eid in sorted(c09.CAT):
+        by_obj.setdefault(c09.CAT[eid]["obj"], []).append(eid)
+
+    def good(eid, k=0):
+        e = c09.CAT[eid]
+        r = random.Random("%s/%d" % (eid, k))
+        return e["good"](r) if callable(e["good"]) else list(e["good"])[k % len(e["good"])]
+
+    def off(eid):
+        e = c09.CAT[eid]
+        if e["none"] is not None:
+            return {"k": "none"}
+        goods = [] if callable(e["good"]) else list(e["good"])
+        if {"k": "bool", "v": False} in goods:
+            return {"k": "bool", "v": False}
+        return None
+
+    def on(eid):
+        e = c09.CAT[eid]
+        goods = [] if callable(e["good"]) else list(e["good"])
+        if {"k": "bool", "v": True} in goods:
+            return {"k": "bool", "v": True}
+        v = good(eid, 1)
+        return good(eid, 2) if v == {"k": "none"} else v
+
+    out = []
+    kit = c09.kit_events()
+    for obj, eids in sorted(by_obj.items()):
+        if len(eids) < 2:
+            continue
+        for a in eids:
+            evs = list(kit)
+            st = lambda eid, v: {"op": "c09.set", "entry": eid, "v": v, "kind": "good", "slide": 0, "i": 0}  # noqa: E731
+            for a_state in ("present", "absent"):
+                va = on(a) if a_state == "present" else off(a)
+                if va is None:
+                    continue
+                for b in eids:
+                    if b == a or off(b) is None:
+                        continue
+                    evs += [st(a, va), st(b, off(b)), st(b, on(b))]
+            if len(evs) > len(kit):
+                evs.append({"op": "checkpoint", "sink": "seekable"})
+                out.append(T("pair-order-%s" % a, evs))
     return out
